@@ -30,7 +30,8 @@ def cast_state(
         state_tuple = state
 
     # Cast to init_state: Tuple[Tensor, ...] with desired dtype and device
-    state_tensor_tuple: Tuple[Tensor, ...] = tuple(map(torch.as_tensor, state_tuple))
-    state_tensor_tuple = tuple(map(lambda t: t.to(device, dtype), state_tensor_tuple))
+    state_tensor_tuple: Tuple[Tensor, ...] = tuple(
+        map(lambda t: torch.as_tensor(t, dtype=dtype, device=device), state_tuple)
+    )
 
     return state_tensor_tuple
